@@ -1,7 +1,7 @@
 (* Props/C18.v — property C18: the convex-hull routines return the true hull.
    Only statements, each closed by `exact`, with its assumptions printed. *)
-From Coq Require Import List Arith Bool Permutation.
-From Knee Require Import Num NumFloat NpList Model.Hull Proofs.ListFacts Proofs.HullScan Proofs.HullFacts.
+From Coq Require Import Reals ZArith List Arith Bool Permutation PrimFloat.
+From Knee Require Import Num NumFloat NumR NpList Model.Hull Model.HullExact Proofs.ListFacts Proofs.HullScan Proofs.HullFacts Proofs.HullCorrect.
 Import ListNotations.
 
 (* ---- Tier S: every Num, every orientation oracle cc (so: the doubles _ccw really computes, NaN included) *)
@@ -50,3 +50,51 @@ Theorem C18_graham_total : forall (N : Num) (pts : list (@pt N)) (dist : nat -> 
     graham_structb pts out = true /\ turnsb (gtest (ccw_idx pts)) (tl out) = true.
 Proof. exact @graham_total. Qed.
 Print Assumptions C18_graham_total.
+
+(* ---- Tier A: real arithmetic (ccw := the cross product of _ccw evaluated on RNum), strictly increasing x *)
+
+(* lower_hull_correct: the returned chain is a strictly increasing chain 0..n-1, every point lies on or above the
+   chain edge spanning it, consecutive edges turn strictly counter-clockwise, and the chain IS the brute-force
+   hull chain (the indices that are strictly below every segment spanning them) *)
+Theorem C18_lower_hull_correct : forall pts : list (R * R),
+  @x_increasing RNum pts = true -> 2 <= length pts ->
+  @lower_geomb RNum pts (@graham_scan_lower RNum pts) = true.
+Proof. exact lower_hull_correct. Qed.
+Print Assumptions C18_lower_hull_correct.
+
+(* ... and it is the unique strictly convex chain with every point on or above it *)
+Theorem C18_lower_hull_unique : forall (pts : list (R * R)) out,
+  @x_increasing RNum pts = true -> 2 <= length pts ->
+  chainb (length pts) out = true -> @coversb RNum (@nonneg RNum) pts out = true ->
+  @convexb RNum (@pos RNum) pts out = true -> out = @graham_scan_lower RNum pts.
+Proof. exact lower_hull_unique. Qed.
+Print Assumptions C18_lower_hull_unique.
+
+(* upper hull: on or below, strictly clockwise *)
+Theorem C18_upper_hull_correct : forall pts : list (R * R),
+  @x_increasing RNum pts = true -> 2 <= length pts ->
+  @upper_geomb RNum pts (@graham_scan_upper RNum pts) = true.
+Proof. exact upper_hull_correct. Qed.
+Print Assumptions C18_upper_hull_correct.
+
+Theorem C18_upper_hull_unique : forall (pts : list (R * R)) out,
+  @x_increasing RNum pts = true -> 2 <= length pts ->
+  chainb (length pts) out = true -> @coversb RNum (@nonpos RNum) pts out = true ->
+  @convexb RNum (@negt RNum) pts out = true -> out = @graham_scan_upper RNum pts.
+Proof. exact upper_hull_unique. Qed.
+Print Assumptions C18_upper_hull_unique.
+
+(* non-vacuity: concrete inputs meeting the hypotheses, evaluated (exact integers / doubles) *)
+Example C18_example_chain :
+  let pts : list (@pt ZNum) := [(0, 3); (1, 1); (2, 2); (3, 0); (4, 0); (5, 4)]%Z in
+  @x_increasing ZNum pts = true /\
+  @graham_scan_lower ZNum pts = [0; 1; 3; 4; 5] /\ @lower_geomb ZNum pts [0; 1; 3; 4; 5] = true /\
+  @graham_scan_upper ZNum pts = [0; 5] /\ @upper_geomb ZNum pts [0; 5] = true /\
+  @lower_geomb ZNum pts [0; 3; 4; 5] = false.
+Proof. vm_compute. repeat split. Qed.
+Example C18_example_graham :
+  let pts : list (@pt FloatNum) := [(1, 1); (0, 0); (2, 2); (0, 2); (2, 0); (1, 0); (0, 1)]%float in
+  @distinctb FloatNum pts = true /\
+  @graham_scan FloatNum pts (fun i => nth i [0x1.6a09e667f3bcdp+0; 0; 0x1.6a09e667f3bcdp+1; 2; 2; 1; 1]%float 0%float)
+    = Some [1; 6; 3; 2; 4].
+Proof. vm_compute. repeat split. Qed.
